@@ -127,7 +127,7 @@ def case(ctx, rng, idx, state):
 if __name__ == "__main__":
     harness.main(
         PROP, "exploration", case, setup_fn=setup,
-        tiers=dict(quick=dict(cases=80, shards=8, time=150), thorough=dict(cases=2400, shards=16, time=1100)),
+        tiers=dict(quick=dict(cases=80, shards=8, time=900), thorough=dict(cases=2400, shards=16, time=3000)),
         rule="random Hermitian real-space models (1-7 WFs, R ball radius<=2.6, centres random/outside/co-centred/"
              "high-symmetry), FFT boxes 1..7 per direction incl. boxes smaller than the R range, random dK, "
              "explicit k-lists with points outside [0,1); a case is distinct by (num_wann, FFT box, nR, centre mode, aliasing)",
